@@ -1,6 +1,11 @@
-import sys, warnings, time, cProfile, pstats; sys.path.insert(0,'/verif'); warnings.simplefilter('ignore')
+import sys, warnings, time; sys.path.insert(0,'/verif'); warnings.simplefilter('ignore')
 from checks import c02
-t0=time.time()
-cProfile.run("r=c02.job_clip('KL-ova',2,2,max_paths=12)", '/tmp/prof.out')
-print(time.time()-t0, {k:(v if not isinstance(v,list) else len(v)) for k,v in r.items()})
-pstats.Stats('/tmp/prof.out').sort_stats('cumtime').print_stats(25)
+import random
+rng=random.Random(1); hits=0
+for t in range(40):
+    m={}
+    for i in range(3):
+        m[f"p_{i}_0"]=str(round(rng.uniform(0.05,0.95),3))
+    rep={"label":"W-ovo","n":3,"K":2,"kind":"grad","model":m}
+    hits+=c02.replay(rep)
+print('hits',hits,'of 40')
